@@ -261,7 +261,15 @@ def r_arg_checks(rule, root=None):
     fn = A.find_fn(VAR, "check_tracing_arguments", self_ty="VarMap", root=root)
     ifs = list(A.find(fn["body"], "If"))
     c = A.ftxt(A.strip(ifs[0]["cond"])) if ifs else ""
-    if c == "(vars.len()<self.len())" and "Err(TracingArgError::BadVarSlice" in A.ftxt(ifs[0]["then"]) and "Ok(())" in A.unparse(ifs[0].get("else")):
+    def _err_exactly_when_short(f_, err_prefix):
+        """every result of the check: the error exactly under vars.len() < self.len(), Ok(()) otherwise"""
+        res = A.result_cases(f_["body"])
+        errs = [(v_, cs_) for v_, cs_ in res if str(A.ftxt(v_)).startswith(err_prefix)]
+        oks = [(v_, cs_) for v_, cs_ in res if str(A.ftxt(v_)) == "Ok(())"]
+        return (len(errs) == 1 and [A.canon_int_text(x) for x in errs[0][1]] == ["(vars.len()<self.len())"]
+                and len(oks) == 1 and [A.canon_int_text(x) for x in oks[0][1]] == ["(self.len()<=vars.len())"] and len(res) == 2)
+
+    if (c == "(vars.len()<self.len())" and "Err(TracingArgError::BadVarSlice" in A.ftxt(ifs[0]["then"]) and "Ok(())" in A.unparse(ifs[0].get("else"))) or _err_exactly_when_short(fn, "Err(TracingArgError::BadVarSlice"):
         rule.ok("check_tracing_arguments: Err iff fewer slots than variables", file=VAR, line=fn["ln"])
     else:
         rule.bad("tracing-args", "check_tracing_arguments must return BadVarSlice exactly when vars.len() < self.len() (found `%s`)" % c, A.where(fn))
